@@ -5,8 +5,10 @@
 (* Wrapper over any action A of Layers / Runtime that touches the disk:    *)
 (* the fault-free execution makes N watched libc calls and ends in         *)
 (* (ret0, dir0).  With the k-th call failing, the action may leave         *)
-(* anything behind, but it may only say "ok" when result and directory are *)
-(* those of the fault-free execution.  The enumeration protocol itself is  *)
+(* anything behind, but it has to return an error: "ok" is never allowed,  *)
+(* neither with a different directory (silent corruption) nor with the     *)
+(* fault-free result (a failed operation that was simply ignored).         *)
+(* The enumeration protocol itself is                                      *)
 (* part of the model: after the fault-free run every k in 1..N must be     *)
 (* injected once per errno, so a driver that skips injection points is     *)
 (* rejected by trace validation.                                           *)
@@ -34,8 +36,9 @@ FaultFree(a, calls) ==
   /\ Complete
   /\ action' = a /\ n' = calls /\ done' = {} /\ last' = NoObs
 
-\* what the implementation is allowed to do when the k-th call fails
-Allowed(o) == o.ok => (o.sameret /\ o.samedir)
+\* what the implementation is allowed to do when the k-th call fails: report it.
+\* (sameret / samedir only classify a violation: ignored failure vs. silent corruption)
+Allowed(o) == ~o.ok
 
 Faulted(k, e, o) ==
   /\ k \in 1..n /\ e \in Errnos /\ <<k, e>> \notin done
